@@ -917,6 +917,8 @@ def random_spec(rng, tok, fx: dict, *, allow=None, depth: int = 0) -> dict:
         second = rng.choice(same_kind) if same_kind else second
         if second["data"] != first["data"]:
             second["filename"] = first["filename"]
+            if second.get("name_style"):
+                second["name_charset"] = "utf-8"         # (its own charset was chosen for its own name)
             feats.append("att:same-name-twice")
     if inline_n:
         feats.append(f"struct:related:{inline_n}")
